@@ -137,3 +137,7 @@ pub(super) fn dump_path(path: &Vec<ResultNode>) {
         println!("{}: {}", i, node);
     }
 }
+
+// verification hook: harness text lives outside the repository (see MANIFEST.hooks)
+#[cfg(any(kani, sudachi_verif))]
+include!(concat!(env!("SUDACHI_VERIF_DIR"), "/analysis__stateless_tokenizer.rs"));
